@@ -780,8 +780,21 @@ class revert_intro(Method):
 
         pt = state.get_proof_item(prevs[0])
         assert pt.rule == 'assume', "revert_intro: prev is not assume"
-        state.set_line(id, 'sorry', th=Thm.implies_intr(pt.th.prop, cur_item.th))
+
+        # The goal must be followed by the intros line discharging the
+        # assumption, the assumption must be the last one introduced, and
+        # no other line may depend on it.
         item = state.get_proof_item(id.incr_id(1))
+        assert item.rule == 'intros' and len(item.prevs) >= 2 and \
+            item.prevs[-1] == id and item.prevs[-2] == prevs[0], \
+            "revert_intro: assumption is not the last one introduced for the goal"
+
+        def is_used(prf):
+            return any((it is not item and prevs[0] in it.prevs) or
+                       (it.subproof is not None and is_used(it.subproof)) for it in prf.items)
+        assert not is_used(state.prf), "revert_intro: assumption is used by other lines"
+
+        state.set_line(id, 'sorry', th=Thm.implies_intr(pt.th.prop, cur_item.th))
         state.set_line(id.incr_id(1), item.rule, args=item.args,
                        prevs=[p for p in item.prevs if p != prevs[0]], th=item.th)
         state.remove_line(prevs[0])
